@@ -46,7 +46,8 @@ static int sigvictim[MAXS];               /* -2 = ordinary thread, -1 = interrup
 static char cfgline[256];
 
 /* bookkeeping of the harness (ghost state + monitors), all accessed under the baton */
-static int closing_f[MAXH], unlinked[MAXH], freed[MAXH];
+static int closing_f[MAXH], unlinked[MAXH], freed[MAXH], released[MAXH];
+static int free_in_cb;                    /* cfg free=cb: release the memory in close_cb even when a uv_async_send call on it is in flight */
 static int pub[MAXH], seen[MAXH], cbs[MAXH], eff[MAXH], completed[MAXH];
 static struct { int h, k, seq, active; } S[MAXS];
 static int cb_of = -1;                    /* handle whose callback the loop thread is in */
@@ -57,6 +58,7 @@ static int guard = 1;
 static char effbuf[256];
 static int cleanup_mode;
 
+static int trace_steps;                   /* C09_TRACE=1: announce every step before it runs (to locate a crash) */
 static char viol[512];                    /* first monitor failure of the current run */
 static void violation(const char* sig, const char* what) {
   if (!viol[0]) snprintf(viol, sizeof viol, "%s %s", sig, what);
@@ -159,10 +161,18 @@ static ssize_t sched_write(int fd, const void* buf, size_t n) {
 #undef write
 
 /* ------------------------------------------------------------------ callbacks and thread bodies */
+static int inflight(int h) {
+  int n = 0;
+  for (int t = 0; t < ns; t++) if (S[t].active && S[t].h == h) n++;
+  return n;
+}
+
+/* user contract (cfg free=safe, default): the close callback releases the handle memory unless a
+ * uv_async_send() call on it has not returned yet; then the last such call to return releases it. */
 static void close_cb(uv_handle_t* handle) {
   int h = (int) (long) handle->data;
   freed[h] = 1;
-  free(handle);
+  if (cleanup_mode || free_in_cb || inflight(h) == 0) { released[h] = 1; free(handle); }
 }
 
 static void do_close(int h) {
@@ -234,6 +244,7 @@ static void sender_fn(int id) {
     if (sched_unwinding) return;
     S[t].active = 0;
     if (S[t].seq > completed[h]) completed[h] = S[t].seq;
+    if (freed[h] && !released[h] && inflight(h) == 0) { released[h] = 1; free(H[h]); }
     eff_add(" ret");
   }
 }
@@ -388,7 +399,7 @@ static tok_t path[512]; static int pathlen;
 
 static void start_run(void) {
   int h, t;
-  memset(closing_f, 0, sizeof closing_f); memset(unlinked, 0, sizeof unlinked); memset(freed, 0, sizeof freed);
+  memset(closing_f, 0, sizeof closing_f); memset(unlinked, 0, sizeof unlinked); memset(freed, 0, sizeof freed); memset(released, 0, sizeof released);
   memset(pub, 0, sizeof pub); memset(seen, 0, sizeof seen); memset(cbs, 0, sizeof cbs);
   memset(eff, 0, sizeof eff); memset(completed, 0, sizeof completed); memset(S, 0, sizeof S);
   cb_of = closing_now = -1; efd_count = 0; viol[0] = 0; pathlen = 0; effbuf[0] = 0;
@@ -410,7 +421,7 @@ static void end_run(void) {
   cleanup_mode = 1;
   efd_count = 0;
   for (h = 0; h < nh; h++) {
-    if (freed[h]) continue;
+    if (freed[h]) { if (!released[h]) { released[h] = 1; free(H[h]); } continue; }
     if (!uv_is_closing((uv_handle_t*) H[h])) { H[h]->u.fd = 0; uv_close((uv_handle_t*) H[h], close_cb); }
   }
   uv_run(L, UV_RUN_NOWAIT);
@@ -438,10 +449,11 @@ static int do_tok(tok_t k, int print) {
   tok_str(k, b);
   path[pathlen++] = k;
   effbuf[0] = 0;
+  if (trace_steps) { printf("> %s\n", b); fflush(stdout); }
   if (k.kind == 's') {
     sched_thread* st = &sched_t[k.arg + 1];
     int fh = st->addr ? handle_of(st->addr) : -1;
-    if (guard && fh >= 0 && freed[fh]) {
+    if (guard && fh >= 0 && released[fh]) {
       /* the operation would touch memory the close callback released: do not execute it */
       char w[160];
       snprintf(w, sizeof w, "sender %d inside uv_async_send(h%d) is about to access the handle (park kind %d, %s) after its close callback released it",
@@ -554,13 +566,14 @@ static void parse_cfg(char* line) {
   snprintf(cfgline, sizeof cfgline, "%s", line);
   cfgline[strcspn(cfgline, "\r\n")] = 0;
   for (char* p = strtok(line, " \t\r\n"); p && n < 16; p = strtok(NULL, " \t\r\n")) w[n++] = p;
-  nh = ns = 0; memset(closable, 0, sizeof closable); memset(nprog, 0, sizeof nprog);
+  nh = ns = 0; free_in_cb = 0; memset(closable, 0, sizeof closable); memset(nprog, 0, sizeof nprog);
   for (i = 0; i < MAXS; i++) sigvictim[i] = -2;
   for (i = 1; i < n; i++) {
     char* v = strchr(w[i], '=');
     if (!v) continue;
     *v++ = 0;
     if (!strcmp(w[i], "nh")) nh = atoi(v);
+    else if (!strcmp(w[i], "free")) free_in_cb = !strcmp(v, "cb");
     else if (!strcmp(w[i], "close")) { if (*v != '-') for (char* p = v; *p; p++) if (*p >= '0' && *p <= '9' && *p - '0' < MAXH) closable[*p - '0'] = 1; }
     else if (!strcmp(w[i], "senders")) {
       if (*v == '-') continue;
@@ -585,7 +598,12 @@ static void parse_cfg(char* line) {
 int main(void) {
   char line[4096];
   setvbuf(stdout, NULL, _IOFBF, 1 << 16);
+  trace_steps = getenv("C09_TRACE") != NULL;
   sched_init();
+  {                                      /* baton hand-overs are an order of magnitude cheaper on one CPU */
+    cpu_set_t cs; int c = sched_getcpu();
+    if (c >= 0) { CPU_ZERO(&cs); CPU_SET(c, &cs); sched_setaffinity(0, sizeof cs, &cs); }
+  }
   if (uv_loop_init(L)) return 3;
   while (fgets(line, sizeof line, stdin)) {
     if (!strncmp(line, "cfg", 3)) parse_cfg(line);
